@@ -267,6 +267,15 @@ def drive(pts, io, d, rng, nprng, tier, idx):
     else:
         write_molecule(p2, X2, el2)
     arr, desc = make_array(rng, nprng, tier)
+    # the same rows in other legal forms: Fortran-ordered, a non-contiguous view, float32 (positions/quaternions good to ~1e-7)
+    form = rng.choice(["c", "c", "fortran", "view", "float32"])
+    if form == "fortran":
+        arr = np.asfortranarray(arr)
+    elif form == "view":
+        arr = np.repeat(arr, 2, axis=0)[::2]
+    elif form == "float32":
+        arr = arr.astype(np.float32)
+    desc += f" form={form}"
     route = rng.choice(["direct", "generator", "ptwriter", "ptwriter_then_structure"])
     REC.begin_case({"mol1": [k1, n1, e1], "mol2": [k2, n2, e2], "array": desc, "route": route, "rows_head": arr[:3]},
                    cls=[f"route={route}", f"mol2={k2}", f"array={desc.split()[0]}"], sample=(idx % 9 == 0))
